@@ -59,7 +59,14 @@ pub fn check_varint_bytes(ctx: &mut Ctx, b: &[u8]) -> u64 {
         }
     };
     let want = w::varint(b);
-    ctx.verbose(|| format!("varint {}: s2n={:?} ref={:?}", hex(b), got.as_ref().map(|g| (g.value, g.consumed)), want));
+    ctx.verbose(|| {
+        format!(
+            "varint {}: s2n={:?} ref={:?}",
+            hex(b),
+            got.as_ref().map(|g| (g.value, g.consumed)),
+            want
+        )
+    });
     match (&got, &want) {
         (Some(g), Ok((v, l))) => {
             ctx.sum.count("varint_accepted", 1);
@@ -86,7 +93,10 @@ pub fn check_varint_bytes(ctx: &mut Ctx, b: &[u8]) -> u64 {
             ctx.violation(
                 PROPERTY,
                 "layout:varint:s2n-accepts-truncated".into(),
-                format!("varint {}: s2n accepts, the reference says truncated", hex(b)),
+                format!(
+                    "varint {}: s2n accepts, the reference says truncated",
+                    hex(b)
+                ),
                 replay(),
             );
             0
@@ -137,7 +147,14 @@ pub fn check_varint_value(ctx: &mut Ctx, v: u64) {
             }
             let mut want = Vec::new();
             w::put_varint(&mut want, v);
-            ctx.verbose(|| format!("varint value {v}: s2n={} ref={} announced={}", hex(&e.bytes), hex(&want), e.announced));
+            ctx.verbose(|| {
+                format!(
+                    "varint value {v}: s2n={} ref={} announced={}",
+                    hex(&e.bytes),
+                    hex(&want),
+                    e.announced
+                )
+            });
             if e.announced != e.bytes.len() {
                 ctx.violation(
                     PROPERTY,
@@ -174,7 +191,8 @@ pub fn check_varint_value(ctx: &mut Ctx, v: u64) {
                 );
             }
             if let Some(i) = gen::edge_index(v) {
-                ctx.sum.set("varint_edges_encoded", format!("{}", gen::EDGES[i]));
+                ctx.sum
+                    .set("varint_edges_encoded", format!("{}", gen::EDGES[i]));
             }
         }
     }
@@ -254,9 +272,14 @@ pub fn check_frames(ctx: &mut Ctx, b: &[u8], class: &str) -> FrameOutcome {
         format!(
             "frames {}\n  s2n: {:?} err={:?}\n  ref: {:?} err={:?}",
             hex(b),
-            got.frames.iter().map(|f| (&f.frame, f.end)).collect::<Vec<_>>(),
+            got.frames
+                .iter()
+                .map(|f| (&f.frame, f.end))
+                .collect::<Vec<_>>(),
             got.error,
-            want.iter().map(|f| (&f.frame, f.notes, f.end)).collect::<Vec<_>>(),
+            want.iter()
+                .map(|f| (&f.frame, f.notes, f.end))
+                .collect::<Vec<_>>(),
             want_err
         )
     });
@@ -311,7 +334,10 @@ pub fn check_frames(ctx: &mut Ctx, b: &[u8], class: &str) -> FrameOutcome {
                 }
                 outcome.accepted += 1;
                 ctx.sum.count("frames_accepted", 1);
-                ctx.sum.set("frame_types_decoded", format!("{:#04x}", w::frame_type(&r.frame)));
+                ctx.sum.set(
+                    "frame_types_decoded",
+                    format!("{:#04x}", w::frame_type(&r.frame)),
+                );
                 // (R) the decoded value re-encoded by s2n
                 if g.announced != g.reencoded.len() {
                     ctx.violation(
@@ -376,17 +402,21 @@ pub fn check_frames(ctx: &mut Ctx, b: &[u8], class: &str) -> FrameOutcome {
                     ctx.violation(
                         PROPERTY,
                         format!("layout:consumed-mismatch:{}", r.frame.name()),
-                        format!("{}: s2n finished after {} frames, the reference sees more", hex(b), i),
+                        format!(
+                            "{}: s2n finished after {} frames, the reference sees more",
+                            hex(b),
+                            i
+                        ),
                         replay(),
                     );
                     return outcome;
                 }
-                if let Some(why) = r.notes.soft {
-                    outcome.soft = true;
-                    ctx.sum.count(&format!("soft:{why}:s2n-rejects"), 1);
-                } else if r.notes.type_non_minimal {
+                if r.notes.type_non_minimal {
                     outcome.soft = true;
                     ctx.sum.count("soft:non-minimal frame type:s2n-rejects", 1);
+                } else if let Some(why) = r.notes.soft {
+                    outcome.soft = true;
+                    ctx.sum.count(&format!("soft:{why}:s2n-rejects"), 1);
                 } else {
                     ctx.violation(
                         PROPERTY,
@@ -404,9 +434,15 @@ pub fn check_frames(ctx: &mut Ctx, b: &[u8], class: &str) -> FrameOutcome {
             }
             (Some(g), None) => {
                 let sig = match want_err {
-                    Some(WireError::Truncated) => format!("layout:s2n-accepts-truncated:{}", g.frame.name()),
-                    Some(WireError::UnknownFrame(_)) => format!("layout:s2n-accepts-unknown-type:{}", g.frame.name()),
-                    Some(WireError::Invalid(_)) => format!("layout:s2n-accepts-invalid:{}", g.frame.name()),
+                    Some(WireError::Truncated) => {
+                        format!("layout:s2n-accepts-truncated:{}", g.frame.name())
+                    }
+                    Some(WireError::UnknownFrame(_)) => {
+                        format!("layout:s2n-accepts-unknown-type:{}", g.frame.name())
+                    }
+                    Some(WireError::Invalid(_)) => {
+                        format!("layout:s2n-accepts-invalid:{}", g.frame.name())
+                    }
                     None => format!("layout:consumed-mismatch:{}", g.frame.name()),
                 };
                 ctx.violation(
@@ -436,6 +472,12 @@ pub fn check_frames(ctx: &mut Ctx, b: &[u8], class: &str) -> FrameOutcome {
                     }
                     (None, None) => {
                         ctx.sum.count("frame_sequences_accepted", 1);
+                        if outcome.accepted >= 2 && b.len() < 48 {
+                            ctx.sample(|| {
+                                json!({"class": class, "hex": hex(b), "accepted_frames":
+                                    want.iter().map(|f| f.frame.name()).collect::<Vec<_>>()})
+                            });
+                        }
                     }
                     (Some(e), None) => {
                         ctx.violation(
@@ -449,7 +491,10 @@ pub fn check_frames(ctx: &mut Ctx, b: &[u8], class: &str) -> FrameOutcome {
                         ctx.violation(
                             PROPERTY,
                             "layout:s2n-accepts-invalid:end".into(),
-                            format!("{}: s2n consumed everything, the reference says {e:?}", hex(b)),
+                            format!(
+                                "{}: s2n consumed everything, the reference says {e:?}",
+                                hex(b)
+                            ),
                             replay(),
                         );
                     }
@@ -480,7 +525,14 @@ pub fn check_frame_value(ctx: &mut Ctx, f: &Frame) {
             return;
         }
     };
-    ctx.verbose(|| format!("value {f:?}\n  s2n: {} (announced {})\n  ref: {}", hex(&e.bytes), e.announced, hex(&canonical)));
+    ctx.verbose(|| {
+        format!(
+            "value {f:?}\n  s2n: {} (announced {})\n  ref: {}",
+            hex(&e.bytes),
+            e.announced,
+            hex(&canonical)
+        )
+    });
     ctx.sum.count("frame_values_encoded", 1);
     if e.announced != e.bytes.len() {
         ctx.violation(
@@ -528,9 +580,8 @@ pub fn check_frame_value(ctx: &mut Ctx, f: &Frame) {
     // decode(encode(v)) == v on the s2n side alone
     match s2n::decode_frames(&e.bytes, false) {
         Ok(d) => {
-            let ok = d.error.is_none()
-                && d.frames.len() == 1
-                && norm(d.frames[0].frame.clone()) == f;
+            let ok =
+                d.error.is_none() && d.frames.len() == 1 && norm(d.frames[0].frame.clone()) == f;
             // frames whose value breaks a constraint may be refused by the decoder
             let mut c = w::Cur::new(&e.bytes);
             let mut notes = w::Notes::default();
@@ -609,8 +660,10 @@ pub struct HeaderOutcome {
 
 pub fn check_datagram(ctx: &mut Ctx, h: &HeaderInput) -> HeaderOutcome {
     let b = &h.bytes;
-    let replay = || json!({"check": "codec", "kind": "datagram", "hex": hex(b),
-        "short_dcid_len": h.short_dcid_len, "largest": h.largest});
+    let replay = || {
+        json!({"check": "codec", "kind": "datagram", "hex": hex(b),
+        "short_dcid_len": h.short_dcid_len, "largest": h.largest})
+    };
     let mut outcome = HeaderOutcome {
         first: b.first().copied().unwrap_or(0) >> 4,
         ..Default::default()
@@ -626,7 +679,10 @@ pub fn check_datagram(ctx: &mut Ctx, h: &HeaderInput) -> HeaderOutcome {
         ctx.violation(
             PROPERTY,
             "no-progress:packet-decode".into(),
-            format!("decoding {} as packets returned Ok without consuming input", hex(b)),
+            format!(
+                "decoding {} as packets returned Ok without consuming input",
+                hex(b)
+            ),
             replay(),
         );
         return outcome;
@@ -786,7 +842,10 @@ pub fn check_datagram(ctx: &mut Ctx, h: &HeaderInput) -> HeaderOutcome {
                                 ctx.violation(
                                     PROPERTY,
                                     "layout:unprotect-accepts-short".into(),
-                                    format!("packet #{i} of {}: only {room} bytes follow the header", hex(b)),
+                                    format!(
+                                        "packet #{i} of {}: only {room} bytes follow the header",
+                                        hex(b)
+                                    ),
                                     replay(),
                                 );
                                 return outcome;
@@ -839,7 +898,10 @@ pub fn check_datagram(ctx: &mut Ctx, h: &HeaderInput) -> HeaderOutcome {
                             if reserved != 0 {
                                 // RFC 9000 17.2/17.3.1 make this a PROTOCOL_VIOLATION after packet
                                 // protection is removed; which layer raises it is not a codec matter
-                                ctx.sum.count(&format!("observed:reserved-bits-accepted:{:?}", g.kind), 1);
+                                ctx.sum.count(
+                                    &format!("observed:reserved-bits-accepted:{:?}", g.kind),
+                                    1,
+                                );
                             }
                         }
                     }
@@ -851,7 +913,10 @@ pub fn check_datagram(ctx: &mut Ctx, h: &HeaderInput) -> HeaderOutcome {
                     ctx.violation(
                         PROPERTY,
                         "layout:header-length-mismatch".into(),
-                        format!("{}: s2n finished after {i} packets, the reference sees more", hex(b)),
+                        format!(
+                            "{}: s2n finished after {i} packets, the reference sees more",
+                            hex(b)
+                        ),
                         replay(),
                     );
                     return outcome;
@@ -917,11 +982,13 @@ pub fn check_datagram(ctx: &mut Ctx, h: &HeaderInput) -> HeaderOutcome {
 
 /// s2n's packet encoders against the reference header parser.
 pub fn check_packet_encoder(ctx: &mut Ctx, s: &s2n::PacketSpec) {
-    let replay = || json!({"check": "codec", "kind": "packet-encode",
+    let replay = || {
+        json!({"check": "codec", "kind": "packet-encode",
         "spec": {"kind": format!("{:?}", s.kind), "version": s.version, "dcid": hex(&s.dcid),
                  "scid": hex(&s.scid), "token": hex(&s.token), "pn": s.pn,
                  "largest_acked": s.largest_acked, "payload": hex(&s.payload), "tag": s.tag,
-                 "spin": s.spin, "key_phase": s.key_phase, "capacity": s.capacity}});
+                 "spin": s.spin, "key_phase": s.key_phase, "capacity": s.capacity}})
+    };
     let bytes = match s2n::encode_packet(s) {
         Ok(s2n::EncodedPacket::Ok(b)) => b,
         Ok(s2n::EncodedPacket::Declined(why)) => {
@@ -937,7 +1004,15 @@ pub fn check_packet_encoder(ctx: &mut Ctx, s: &s2n::PacketSpec) {
     ctx.sum.set("packet_types_encoded", format!("{:?}", s.kind));
     let mut notes = w::HeaderNotes::default();
     let parsed = w::header_ex(&bytes, s.dcid.len(), &mut notes);
-    ctx.verbose(|| format!("encoded {:?} -> {}\n  ref: {:?} {:?}", s, hex(&bytes), parsed, notes));
+    ctx.verbose(|| {
+        format!(
+            "encoded {:?} -> {}\n  ref: {:?} {:?}",
+            s,
+            hex(&bytes),
+            parsed,
+            notes
+        )
+    });
     let fail = |ctx: &mut Ctx, what: &str, detail: String| {
         ctx.violation(
             PROPERTY,
@@ -1015,10 +1090,18 @@ pub fn check_packet_encoder(ctx: &mut Ctx, s: &s2n::PacketSpec) {
                 return fail(ctx, "initial-token", format!("{parsed:?}"));
             }
             if *packet_len != bytes.len() {
-                return fail(ctx, "long-length", format!("Length field covers {packet_len} of {} bytes", bytes.len()));
+                return fail(
+                    ctx,
+                    "long-length",
+                    format!("Length field covers {packet_len} of {} bytes", bytes.len()),
+                );
             }
             if bytes[0] & 0x40 == 0 || bytes[0] & 0x0c != 0 {
-                return fail(ctx, "long-first-byte", format!("first byte {:#04x}", bytes[0]));
+                return fail(
+                    ctx,
+                    "long-first-byte",
+                    format!("first byte {:#04x}", bytes[0]),
+                );
             }
             // the Length varint is reserved before the payload is known and patched afterwards:
             // RFC 9000 section 16 allows the longer form, count it
@@ -1048,7 +1131,11 @@ pub fn check_packet_encoder(ctx: &mut Ctx, s: &s2n::PacketSpec) {
         ctx.violation(
             PROPERTY,
             "roundtrip:packet".into(),
-            format!("{:?}: the s2n decoder does not accept what the s2n encoder wrote: {}", s.kind, hex(&h.bytes)),
+            format!(
+                "{:?}: the s2n decoder does not accept what the s2n encoder wrote: {}",
+                s.kind,
+                hex(&h.bytes)
+            ),
             replay(),
         );
     }
@@ -1065,7 +1152,11 @@ fn check_encoded_pn(
     let pn_len = (bytes[0] & 3) as usize + 1;
     let min = w::pn_min_bytes(s.pn, Some(s.largest_acked)) as usize;
     if pn_len < min {
-        return fail(ctx, "pn-too-short", format!("{pn_len} byte packet number, RFC 9000 A.2 needs {min}"));
+        return fail(
+            ctx,
+            "pn-too-short",
+            format!("{pn_len} byte packet number, RFC 9000 A.2 needs {min}"),
+        );
     }
     let mut t = 0u64;
     for x in &bytes[pn_offset..pn_offset + pn_len] {
@@ -1073,10 +1164,18 @@ fn check_encoded_pn(
     }
     let mask = (1u64 << (8 * pn_len)) - 1;
     if t != s.pn & mask {
-        return fail(ctx, "pn-bytes", format!("packet number bytes {t:#x}, expected {:#x}", s.pn & mask));
+        return fail(
+            ctx,
+            "pn-bytes",
+            format!("packet number bytes {t:#x}, expected {:#x}", s.pn & mask),
+        );
     }
     if bytes[pn_offset + pn_len..end] != s.payload[..] {
-        return fail(ctx, "payload", "payload is not where RFC 9000 section 17 puts it".into());
+        return fail(
+            ctx,
+            "payload",
+            "payload is not where RFC 9000 section 17 puts it".into(),
+        );
     }
 }
 
@@ -1088,9 +1187,13 @@ pub fn tp_block_is_shortest_form(block: &[u8]) -> bool {
     let mut c = w::Cur::new(block);
     while !c.is_empty() {
         let Ok(id) = c.vi() else { return false };
-        let Ok(val) = c.take_vi_len() else { return false };
+        let Ok(val) = c.take_vi_len() else {
+            return false;
+        };
         let integer = matches!(id, 0x01 | 0x03..=0x0b | 0x0e | 0x20);
-        if integer && !matches!(w::varint(val), Ok((x, l)) if l == val.len() && l == w::varint_len(x)) {
+        if integer
+            && !matches!(w::varint(val), Ok((x, l)) if l == val.len() && l == w::varint_len(x))
+        {
             return false;
         }
     }
@@ -1098,8 +1201,10 @@ pub fn tp_block_is_shortest_form(block: &[u8]) -> bool {
 }
 
 pub fn check_tp_bytes(ctx: &mut Ctx, b: &[u8], role: w::tp::Role) -> bool {
-    let replay = || json!({"check": "codec", "kind": "tp", "hex": hex(b),
-        "role": if role == w::tp::Role::Client { "client" } else { "server" }});
+    let replay = || {
+        json!({"check": "codec", "kind": "tp", "hex": hex(b),
+        "role": if role == w::tp::Role::Client { "client" } else { "server" }})
+    };
     match s2n::tp_decode(b, role) {
         Err(p) => {
             panic_violation(ctx, "tp-decode", &p, replay());
@@ -1115,21 +1220,34 @@ pub fn check_tp_bytes(ctx: &mut Ctx, b: &[u8], role: w::tp::Role) -> bool {
                 ctx.violation(
                     PROPERTY,
                     "roundtrip:size:transport-parameters".into(),
-                    format!("{}: encoding_size()={} but {} bytes written", hex(b), v.announced, v.reencoded.len()),
+                    format!(
+                        "{}: encoding_size()={} but {} bytes written",
+                        hex(b),
+                        v.announced,
+                        v.reencoded.len()
+                    ),
                     replay(),
                 );
             } else if !v.stable {
                 ctx.violation(
                     PROPERTY,
                     "roundtrip:value:transport-parameters".into(),
-                    format!("{}: decode(encode(decode(b))) differs from decode(b); re-encoded {}", hex(b), hex(&v.reencoded)),
+                    format!(
+                        "{}: decode(encode(decode(b))) differs from decode(b); re-encoded {}",
+                        hex(b),
+                        hex(&v.reencoded)
+                    ),
                     replay(),
                 );
             } else if !tp_block_is_shortest_form(&v.reencoded) {
                 ctx.violation(
                     PROPERTY,
                     "encoder:non-minimal-varint:transport-parameters".into(),
-                    format!("{}: re-encoded block {} is malformed or uses non-minimal varints", hex(b), hex(&v.reencoded)),
+                    format!(
+                        "{}: re-encoded block {} is malformed or uses non-minimal varints",
+                        hex(b),
+                        hex(&v.reencoded)
+                    ),
                     replay(),
                 );
             }
@@ -1299,7 +1417,14 @@ pub fn one(ctx: &mut Ctx, seed: u64, index: u64) {
                 b[0] = tagbits << 6 | (fill & 0x3f);
             }
             let r = check_varint_bytes(ctx, &b);
-            sig(ctx, class, b.first().map(|x| (*x >> 6) as u64).unwrap_or(4), r, n as u64, n == 0);
+            sig(
+                ctx,
+                class,
+                b.first().map(|x| (*x >> 6) as u64).unwrap_or(4),
+                r,
+                n as u64,
+                n == 0,
+            );
         }
         1 => {
             let v = match rng.below(4) {
@@ -1363,7 +1488,10 @@ pub fn one(ctx: &mut Ctx, seed: u64, index: u64) {
             let mut mutation = 0;
             if class == 6 {
                 mutation = 1 + gen::mutate(&mut rng, &mut b) as u64;
-                ctx.sum.count(&format!("mutation:{}", gen::MUTATIONS[mutation as usize - 1]), 1);
+                ctx.sum.count(
+                    &format!("mutation:{}", gen::MUTATIONS[mutation as usize - 1]),
+                    1,
+                );
             }
             count_trace(ctx, &trace);
             let o = check_frames(ctx, &b, CLASSES[class]);
@@ -1394,7 +1522,10 @@ pub fn one(ctx: &mut Ctx, seed: u64, index: u64) {
             let mut mutation = 0;
             if class == 8 {
                 mutation = 1 + gen::mutate(&mut rng, &mut b) as u64;
-                ctx.sum.count(&format!("mutation:{}", gen::MUTATIONS[mutation as usize - 1]), 1);
+                ctx.sum.count(
+                    &format!("mutation:{}", gen::MUTATIONS[mutation as usize - 1]),
+                    1,
+                );
             }
             count_trace(ctx, &trace);
             let o = check_frames(ctx, &b, CLASSES[class]);
